@@ -763,6 +763,10 @@ func (bi *BasmInstance) GetBondMachine() *bondmachine.Bondmachine {
 	return bi.result
 }
 
+// unusableAlternative marks a code alternative that failed to assemble: it is larger than any
+// real word size, so the minimum-word-size chooser never selects it.
+const unusableAlternative = 1 << 30
+
 type choiceParams struct {
 	wordSize  int
 	groupName string
@@ -808,6 +812,8 @@ func (bi *BasmInstance) CodeChoice(rSize uint8, i int, sh string) error {
 			fmt.Println("\t\t - " + green("ROM data alternatives: ") + yellow(strings.Join(romDataAlts, ", ")))
 			fmt.Println("\t\t - " + green("RAM data alternatives: ") + yellow(strings.Join(ramDataAlts, ", ")))
 		}
+
+		var altErr error
 
 		for ii, romAlt := range romAlts {
 			for jj, ramAlt := range ramAlts {
@@ -890,7 +896,11 @@ func (bi *BasmInstance) CodeChoice(rSize uint8, i int, sh string) error {
 					if prog, err := myArch.Assembler([]byte(prog)); err == nil {
 						tempCP.Program = prog
 					} else {
-						return err
+						// This alternative cannot encode the program (for example an immediate that does
+						// not fit a short rsets opcode): it is not a candidate, the others still are.
+						params[ii*len(ramAlts)+jj].wordSize = unusableAlternative
+						altErr = err
+						continue
 					}
 
 					romAltContrib = len(bi.sections[romAlt].sectionBody.Lines)
@@ -923,6 +933,16 @@ func (bi *BasmInstance) CodeChoice(rSize uint8, i int, sh string) error {
 
 				}
 			}
+		}
+
+		usable := false
+		for _, p := range params {
+			if p.wordSize != unusableAlternative {
+				usable = true
+			}
+		}
+		if !usable && altErr != nil {
+			return altErr
 		}
 
 		// Choice of the sections
